@@ -266,6 +266,18 @@ func (f *Frame) localsAt(b *ssa.BasicBlock, includeOwnPhis bool) map[string]ssa.
 	for n, c := range best {
 		out[n] = c.v
 	}
+	// rangeover: the slice a `for ... range expr` loop iterates over (the header compares the index with len(expr))
+	if iff, ok := b.Instrs[len(b.Instrs)-1].(*ssa.If); ok {
+		if cmp, ok := iff.Cond.(*ssa.BinOp); ok {
+			if call, ok := cmp.Y.(*ssa.Call); ok {
+				if bi, ok := call.Call.Value.(*ssa.Builtin); ok && bi.Name() == "len" && len(call.Call.Args) == 1 {
+					if _, isSlice := call.Call.Args[0].Type().Underlying().(*types.Slice); isSlice {
+						out["rangeover"] = call.Call.Args[0]
+					}
+				}
+			}
+		}
+	}
 	return out
 }
 
